@@ -207,10 +207,15 @@ def run_case(case, ch: Choices) -> RunResult:
             root_b = os.path.join(base, "b%d" % pi)
             # the operations stay in one file: how *they* are split legitimately reorders the client's methods
             decoys = ch.draw("lay.decoys", 2 ** 16) if ch.chance("lay.decoys_on", 1, 2) else None
+            linked = ch.draw("lay.linked_file", 2 ** 16) if ch.chance("lay.linked_file_on", 1, 3) else None
+            if linked is not None:
+                res.bump("partition.one_file_is_a_symlink_to_a_file_elsewhere")
             mb = worlds.materialize(world, root_b, spart, None, decoys_seed=decoys, creation_order_seed=ch.draw("lay.creation", 2 ** 16),
-                                    tail_seed=ch.draw("lay.tails", 2 ** 16))
+                                    tail_seed=ch.draw("lay.tails", 2 ** 16), linked_file_seed=linked)
             enum_seed = ch.draw("lay.enum", 2 ** 16)
-            loc = genrun.LOCALE_ENVS[ch.draw("env.locale", len(genrun.LOCALE_ENVS))] if world.get("locale_safe") else None
+            # (the first partition always under the ASCII locale, the others under a drawn one)
+            loc = (genrun.LOCALE_ENVS[1] if pi == 0 else genrun.LOCALE_ENVS[ch.draw("env.locale", len(genrun.LOCALE_ENVS))]) \
+                if world.get("locale_safe") else None
             if loc:
                 res.bump("env.partition_generated_under_another_locale")
             rb = genrun.run_child(root_b, mb["argv"], mb["targets"], hashseed=ch.pick("env.hs", [0, 1, 2]), enum_seed=enum_seed, proc_env=loc)
